@@ -138,6 +138,15 @@ func ParseField(v reflect.Value, bytes []byte, params fieldParameters) error {
 		return fmt.Errorf("type value out of range")
 	}
 
+	// EXPLICIT tagging: the element is wrapped in a constructed context-tagged
+	// one. A tagged CHOICE is unwrapped by the CHOICE case below.
+	if params.tagNumber != nil && params.explicitTag &&
+		!(v.Kind() == reflect.Struct && fieldType.NumField() > 0 && fieldType.Field(0).Name == "Present") {
+		params.tagNumber = nil
+		params.explicitTag = false
+		return ParseField(v, bytes[talOff:], params)
+	}
+
 	// We deal with the structures defined in this package first.
 	switch fieldType {
 	case BitStringType:
